@@ -26,39 +26,39 @@ type Explorer struct {
 	active  int
 	stopped bool
 
-	Violations   []*Violation
-	vioSeen      map[string]bool
-	Status       map[string]int
-	Reached      map[string]bool
-	Asserts      map[string]bool
-	Unknowns     int
-	Disagree     int
-	Unwinds      map[string]int
-	Bounds       map[string]int
-	Stubs        map[string]bool
-	Unsupported  map[string]int
-	Inconclusive []string
-	Paths        int64
-	Instrs       int64
-	Queries      int
-	SolverTime   time.Duration
-	NSat, NUnsat int
-	Encoded      map[string]bool
-	Samples      []string
-	MaxPaths     int64
-	Deadline     time.Time
-	Workers      int
-	SolverName   string
-	TimeoutMs    int
-	xcheck       string
-	PathLimitHit bool
-	Tier         int
-	Verbose      bool
-	curHarness   string
-	MaxViol      int
-	Fallbacks    []string
+	Violations        []*Violation
+	vioSeen           map[string]bool
+	Status            map[string]int
+	Reached           map[string]bool
+	Asserts           map[string]bool
+	Unknowns          int
+	Disagree          int
+	Unwinds           map[string]int
+	Bounds            map[string]int
+	Stubs             map[string]bool
+	Unsupported       map[string]int
+	Inconclusive      []string
+	Paths             int64
+	Instrs            int64
+	Queries           int
+	SolverTime        time.Duration
+	NSat, NUnsat      int
+	Encoded           map[string]bool
+	Samples           []string
+	MaxPaths          int64
+	Deadline          time.Time
+	Workers           int
+	SolverName        string
+	TimeoutMs         int
+	xcheck            string
+	PathLimitHit      bool
+	Tier              int
+	Verbose           bool
+	curHarness        string
+	MaxViol           int
+	Fallbacks         []string
 	FallbackTimeoutMs int
-	FallbackUsed map[string]int
+	FallbackUsed      map[string]int
 }
 
 func Load(repo string, overlay map[string][]byte, patterns []string, tags string) (*ssa.Program, []*ssa.Package, []*packages.Package, error) {
@@ -153,12 +153,12 @@ func (ex *Explorer) done() {
 }
 
 func (ex *Explorer) noteFallback(n string) { ex.mu.Lock(); ex.FallbackUsed[n]++; ex.mu.Unlock() }
-func (ex *Explorer) noteUnknown() { ex.mu.Lock(); ex.Unknowns++; ex.mu.Unlock() }
-func (ex *Explorer) noteDisagree() { ex.mu.Lock(); ex.Disagree++; ex.mu.Unlock() }
-func (ex *Explorer) noteUnwind(s string) { ex.mu.Lock(); ex.Unwinds[s]++; ex.mu.Unlock() }
-func (ex *Explorer) noteBound(s string) { ex.mu.Lock(); ex.Bounds[s]++; ex.mu.Unlock() }
-func (ex *Explorer) noteStub(s string) { ex.mu.Lock(); ex.Stubs[s] = true; ex.mu.Unlock() }
-func (ex *Explorer) noteAssert(s string) { ex.mu.Lock(); ex.Asserts[s] = true; ex.mu.Unlock() }
+func (ex *Explorer) noteUnknown()          { ex.mu.Lock(); ex.Unknowns++; ex.mu.Unlock() }
+func (ex *Explorer) noteDisagree()         { ex.mu.Lock(); ex.Disagree++; ex.mu.Unlock() }
+func (ex *Explorer) noteUnwind(s string)   { ex.mu.Lock(); ex.Unwinds[s]++; ex.mu.Unlock() }
+func (ex *Explorer) noteBound(s string)    { ex.mu.Lock(); ex.Bounds[s]++; ex.mu.Unlock() }
+func (ex *Explorer) noteStub(s string)     { ex.mu.Lock(); ex.Stubs[s] = true; ex.mu.Unlock() }
+func (ex *Explorer) noteAssert(s string)   { ex.mu.Lock(); ex.Asserts[s] = true; ex.mu.Unlock() }
 func (ex *Explorer) noteInconclusive(s string) {
 	ex.mu.Lock()
 	ex.Inconclusive = append(ex.Inconclusive, s)
